@@ -54,6 +54,43 @@ CHECKS = {
          "total length 4..5*247+12 (9*247 thorough); spec decoder + partition conditions as monitor.",
          TB + "Fragments compared through Frame.serialize().",
          "Coq proof (list arithmetic, induction) + differential correspondence", "7 C09"),
+ "C04": ("Theorems: parameter bytes = concatenation of the given parameters' encodings in schema order; for EVERY response/indication "
+         "schema of the tree (regenerated on every run; side condition schema_ok decided by the kernel for all of them) and EVERY "
+         "assignment the constructor accepts, from_frame(to_frame(a)) = a with nothing left over; accepted assignments have every "
+         "value in range. Generic wire-type codec theory (C16) underneath. Tie: per class random valid assignments (to_frame body, "
+         "from_frame) and invalid assignments (refused by both).",
+         TB + "zigpy leaf types as modelled (tested per type in C16); an optional greedy list, when given, is non-empty (the wire cannot "
+         "represent 'present but empty').",
+         "Coq proof over regenerated schemas + differential correspondence", "7 C04"),
+ "C15": ("Theorems over the model of from_frame: whatever is returned re-encodes to a prefix of the received bytes (nothing shifted or "
+         "invented; complete = consumed everything); a response with non-zero status cut at ANY point after the status is returned, never "
+         "rejected; with status zero / no status / not a response, a cut inside or right before a required field is rejected; a complete "
+         "command followed by surplus bytes is rejected; all response schemas start with TSN,StatusCat,StatusCode (kernel-checked on the "
+         "regenerated table). Tie: every response class x EVERY truncation point x status zero/non-zero x surplus suffixes.",
+         TB + "zigpy leaf deserialisers raise ValueError on short data (tested in C16).",
+         "Coq proof + differential correspondence at every truncation point", "7 C15"),
+ "C16": ("Theorems by structural induction over a universe of wire-type descriptors (ints, fixed bytes, length-prefixed bytes and lists, "
+         "fixed lists, greedy lists, structs, simple descriptors): decode(encode v ++ r) = (v, r); greedy types consume everything; "
+         "every proper prefix of an encoding is an error; decoders never look beyond what they consume; what decodes re-encodes to the "
+         "bytes consumed. C-structs (both alignment modes) and NVRAM dataset containers: separate sub-model (Wire/CStruct*, Wire/Nvram*). "
+         "Tie: every Python wire type (63) x random values x suffixes x EVERY truncation point vs the model codec of its classified "
+         "descriptor; randomly generated CStruct classes.",
+         TB + "the classification of Python types into descriptors (tools/pygen_schemas.py) is itself what Tie B tests; bit-field structs "
+         "are their n-byte image.",
+         "Coq proof (nested structural induction) + differential correspondence", "7 C16"),
+ "C18": ("Theorems over the model of send_packet / the APS data-indication handler / Bind_req / Unbind_req / the TSN generator, for all "
+         "packets, indications and bind requests: payload unchanged, DataLength, ParamLength = 21, endpoints/cluster/profile/TSN, "
+         "destination encoding per addressing mode, options preserved and none invented; indication fields and first PayloadLength bytes, "
+         "destination kind by frame-control bits; sequence never 255; bind and unbind encoded alike. Tie: the real (unbound) methods with "
+         "stub objects on random packets/indications/bind requests; monitors of the statement on the impl.",
+         TB + "zigpy ZigbeePacket/AddrModeAddress/MultiAddress field access, _limit_concurrency are outside the model (stubs).",
+         "Coq proof + differential correspondence with stubbed application objects", "7 C18"),
+ "C19": ("Theorems decided by the kernel on the tables REGENERATED from the tree: schemas = pinned schemas (ids, control types, blocking, "
+         "parameter order/width/signedness/optional flags), enum tables = pinned, headers one-to-one, every class registered, Req/Rsp "
+         "paired; hence for ALL assignments current encoding = pinned encoding. Tie: all 870 pinned vectors re-encoded by impl and model, "
+         "decoded back, COMMANDS_BY_ID.",
+         TB + "the pinned tables and vectors (generated once from revision 8987de1 by tools/mkpinned.py, committed).",
+         "Coq kernel equality of regenerated vs pinned tables + pinned wire vectors", "7 C19"),
 }
 
 checks = []
